@@ -18,7 +18,10 @@ def run(ctx):
     mz = _load("_minimize")
     b = ctx.build("")
     mz.r1(ctx, th)
-    ctx.parallel([lambda: mz.r3(ctx, th, b, "default", "C19"), lambda: mz.r3_reuse(ctx, th, b, "C19")], width=2)
+    ctx.parallel([lambda: mz.r3(ctx, th, b, "default", "C19"), lambda: mz.r3_reuse(ctx, th, b, "C19"),
+                  lambda: mz.r3_defaults(ctx, th, b, "C19")], width=3)
+    if os.path.exists(os.path.join(HERE, "C19_misc.py")):
+        _load("C19_misc").run_misc(ctx)
     if os.path.exists(os.path.join(HERE, "C19_lp.py")):
         _load("C19_lp").run_lp(ctx)
     if os.path.exists(os.path.join(HERE, "C19_ls.py")):
@@ -32,11 +35,14 @@ def run(ctx):
         "'the reported gradient is the gradient at the reported X' is a logging-boundary predicate as well: the harness's objective "
         "wrapper remembers, per run, the gradient it returned for each point (bit comparison); histories that reuse one Method value "
         "(harness/internal/optim/reuse.go) judge every run on its own - evaluated points, counters and the start value are those of that run",
+        "runs made with method == nil come without the method's own log (no proxy can be put around a method the caller never sees): the "
+        "acceptor lets the method move silently; 'the error returned is the Recorder's / an ErrFunc holding the invalid value / an ErrGrad "
+        "naming an invalid component', '|gradient|_inf < threshold' and 'F = -Inf' are logging-boundary predicates on values the run produced",
     ]
     return ctx.finish(
         rule="one trace = one real Minimize run (method x termination cause x Concurrent; in the reuse histories: one of the 2-3 runs made "
              "with one Method value, the first stopped by one budget at one small count) validated against the protocol "
-             "model and the result-coherence conditions; line search: one trace = one real LinesearchMethod run validated against LineSearch.tla, one case = one TLC behaviour replayed into LinesearchMethod / FunctionConverge; LP: one case = one integer LP classified exactly by the spec",
+             "model and the result-coherence conditions (also: method == nil x Problem fields, InitValues, invalid start values, refused calls); Status registry / Wolfe grid / Printer: see C19_misc.MISC_RULE; line search: one trace = one real LinesearchMethod run validated against LineSearch.tla, one case = one TLC behaviour replayed into LinesearchMethod / FunctionConverge; LP: one case = one integer LP classified exactly by the spec",
         exhaustive=False)
 
 
@@ -46,6 +52,12 @@ def replay(ctx, path):
         return _load("C19_ls").replay_ls(ctx, d)
     if "trace" in d:
         return _load("_minimize").replay_trace(ctx, d, "C19")
+    if "failure" in d and "area" in d:
+        one = os.path.join(ctx.work, "one.ndjson")
+        with open(one, "w") as fh:
+            fh.write(json.dumps(d["failure"]["case"]) + "\n")
+        ctx.replay(ctx.build("noasm" if "noasm" in d.get("binary", "") else ""), d["area"], one, d["args"], confirm=False)
+        return ctx.finish()
     lp = _load("C19_lp")
     if hasattr(lp, "replay_lp"):
         return lp.replay_lp(ctx, d)
